@@ -225,7 +225,9 @@ func (f *FrameHeader) readFrom(br *bufio.Reader) (int64, error) {
 
 		n, err = io.ReadFull(br, f.payload[:n])
 		if err != nil {
-			ReleaseFrame(f.fr)
+			// f.fr stays attached: whoever owns f releases it together with
+			// the header (ReadFrameFrom does). Releasing it here as well put
+			// the same frame into its pool twice.
 			return 0, err
 		}
 
